@@ -2,6 +2,7 @@
 from __future__ import annotations
 
 import ast
+import re
 
 from ..core import INCONCLUSIVE, OK, VIOLATION, Ctx, canon, is_self_attr, local_defs, parents_map
 from ..model import AnalysisError, body_walk, norm
@@ -144,28 +145,86 @@ def r04_4(ctx: Ctx):
     return obs
 
 
-def r04_5(ctx: Ctx):
-    """R04.5 selection keeps the best evaluated offspring; only the last pipeline operator evaluates; demes record the step result."""
+def _dom(e: ast.AST, atoms: set[str]):
+    """Population algebra: the set of atom populations whose best element is dominated by the best element of e
+    (atom: itself; X.merge(Y): dom(X) | dom(Y); X.topk(k) with k >= 1: dom(X)); None if e is outside the algebra."""
+    t = canon(e)
+    if t in atoms:
+        return {t}
+    if isinstance(e, ast.Call) and isinstance(e.func, ast.Attribute):
+        if e.func.attr == "merge" and len(e.args) == 1:
+            a, b = _dom(e.func.value, atoms), _dom(e.args[0], atoms)
+            return None if a is None or b is None else a | b
+        if e.func.attr == "topk" and len(e.args) == 1:
+            if isinstance(e.args[0], ast.Constant) and isinstance(e.args[0].value, int) and e.args[0].value < 1:
+                return set()
+            return _dom(e.func.value, atoms)
+        if e.func.attr == "copy" and not e.args:
+            return _dom(e.func.value, atoms)
+    return None
+
+
+def r04_5(ctx: Ctx, need: str = "keep-offspring"):
+    """R04.5 selection keeps the best evaluated offspring (need='keep-offspring', C04) / the best parent as well (need='keep-parents',
+    C12); only the last pipeline operator evaluates; demes record the step result."""
+    import copy
+
+    from ..core import _Subst
+    from . import replacement
+
     obs = []
     m = ctx.prog.own_method("BaseSEA", "select_new_population")
     sn = m.self_name()
     P, Oo = m.params()[1], m.params()[2]
     defs = local_defs(m)
     rets = [r for r in body_walk(m.node) if isinstance(r, ast.Return)]
-    v = canon(rets[0].value, defs) if len(rets) == 1 else ""
-    want = [f"{Oo}.merge({P}.topk({sn}.k_elites)).topk({P}.size)", f"{P}.topk({sn}.k_elites).merge({Oo}).topk({P}.size)"]
-    ok = v in want
-    obs.append(ctx.ob("R04.5", m, rets[0] if rets else m.node, status=OK if ok else VIOLATION, detail="new population = best |P| of (all offspring + k best parents)" if ok else f"select_new_population returns `{v}`; expected topk_|P|(offspring merged with topk_k(parents)) — the best evaluated offspring (or the elites) can be lost", construct="sea-selection"))
+    st, why = INCONCLUSIVE, "select_new_population returns nothing"
+    raw = [o for o in c13.r13_1(ctx) if o.status == VIOLATION and o.subject.endswith("select_new_population")]
+    wanted = {Oo} if need == "keep-offspring" else {P, Oo}
+    verdicts = []
+    for r in rets:
+        if r.value is None:
+            verdicts.append((INCONCLUSIVE, "a bare return"))
+            continue
+        rv = _Subst(defs, 5).visit(copy.deepcopy(r.value))
+        v = canon(rv)
+        dom = _dom(rv, {P, Oo})
+        size_bad = None
+        if need == "keep-parents":
+            # C12: the new population has exactly |P| rows: the outermost operation is topk(|P|)
+            if isinstance(rv, ast.Call) and isinstance(rv.func, ast.Attribute) and rv.func.attr == "topk" and len(rv.args) == 1:
+                sz = canon(rv.args[0])
+                if sz not in (f"{P}.size", f"len({P})", f"{P}.genomes.shape[0]", f"len({P}.fitnesses)"):
+                    size_bad = (VIOLATION if re.fullmatch(r"(" + re.escape(P) + r"\.size|len\(" + re.escape(P) + r"\))([-+*/].*)?|\d+|" + re.escape(Oo) + r"\.size", sz) else INCONCLUSIVE, f"select_new_population keeps `{norm(rv.args[0])}` individuals instead of the parents' population size")
+            elif dom is not None:
+                size_bad = (INCONCLUSIVE, f"cannot tell how many individuals `{v[:80]}` has")
+        if dom is not None and wanted <= dom and size_bad is not None:
+            verdicts.append(size_bad)
+        elif dom is not None and wanted <= dom:
+            verdicts.append((OK, ""))
+        elif dom is not None:
+            missing = sorted(wanted - dom)
+            verdicts.append((VIOLATION, f"select_new_population returns `{v[:100]}`: the best of `{', '.join(missing)}` is not guaranteed to survive ({'an evaluated offspring better than everything recorded can be lost' if Oo in missing else 'the elites are not carried over: the best fitness can get worse'})"))
+        elif raw:
+            verdicts.append((VIOLATION, f"select_new_population selects with a raw, direction-unaware operation on fitness values ({raw[0].detail[:120]}): in one optimisation direction the best individuals are the ones dropped"))
+        else:
+            verdicts.append((INCONCLUSIVE, f"cannot interpret `{v[:100]}` in the merge / topk algebra"))
+    for want_st in (VIOLATION, INCONCLUSIVE, OK):
+        hit = [x for x in verdicts if x[0] == want_st]
+        if hit:
+            st, why = hit[0]
+            break
+    obs.append(ctx.ob("R04.5", m, rets[0] if rets else m.node, status=st, detail=("new population = best of (offspring + elites): the best evaluated offspring survives" if need == "keep-offspring" else "new population = best |P| of (all offspring + k best parents): the elites survive") if st == OK else why, construct="sea-selection"))
     run = ctx.prog.own_method("BaseSEA", "run")
     rdefs = local_defs(run)
     rets = [r for r in body_walk(run.node) if isinstance(r, ast.Return)]
     v = rets[0].value if len(rets) == 1 else None
     ok = isinstance(v, ast.Call) and isinstance(v.func, ast.Attribute) and v.func.attr == "to_individuals" and isinstance(v.func.value, ast.Call) and norm(v.func.value.func) == f"{run.self_name()}.select_new_population" and [norm(a) for a in v.func.value.args] == ["parent_population", "offspring_population"] if v is not None else False
-    obs.append(ctx.ob("R04.5", run, rets[0] if rets else run.node, status=OK if ok else VIOLATION, detail="run() returns the selection of (parents, final offspring)" if ok else f"BaseSEA.run returns `{norm(v)[:80] if v is not None else '?'}`", construct="sea-run"))
+    obs.append(ctx.ob("R04.5", run, rets[0] if rets else run.node, status=OK if ok else INCONCLUSIVE, detail="run() returns the selection of (parents, final offspring)" if ok else f"BaseSEA.run returns `{norm(v)[:80] if v is not None else '?'}`", construct="sea-run"))
     # pipeline loop threads the offspring through every operator
     loops = [n for n in run.node.body if isinstance(n, ast.For)]
     okl = len(loops) == 1 and canon(loops[0].iter) == f"{run.self_name()}.variational_operators_pipeline" and len(loops[0].body) == 1 and isinstance(loops[0].body[0], ast.Assign) and canon(loops[0].body[0]) == f"offspring_population={norm(loops[0].target)}(offspring_population)"
-    obs.append(ctx.ob("R04.5", run, loops[0] if loops else run.node, status=OK if okl else VIOLATION, detail="every operator is applied in order to the running offspring" if okl else "the operator pipeline is not applied in order to one running offspring population", construct="sea-pipeline-loop"))
+    obs.append(ctx.ob("R04.5", run, loops[0] if loops else run.node, status=OK if okl else INCONCLUSIVE, detail="every operator is applied in order to the running offspring" if okl else "the operator pipeline is not applied in order to one running offspring population", construct="sea-pipeline-loop"))
     # only the last operator evaluates
     summ = c02.operator_summaries(ctx)
     for ci in ctx.prog.subclasses(ctx.prog.cls("BaseSEA")):
@@ -190,30 +249,8 @@ def r04_5(ctx: Ctx):
                     if ev != "never":
                         bad.append(c2.name)
                 obs.append(ctx.ob("R04.5", cr, L, status=OK if not bad else VIOLATION, detail=f"{ci.name}: only the last operator evaluates" if not bad else f"{ci.name}: intermediate operator(s) {bad} evaluate the objective; those points are then mutated away without ever being recorded, so the reported best can be worse than the best value observed", construct=f"{ci.name}:intermediate-eval"))
-    # DE / SHADE greedy replacement
-    for cname in ("DE", "SHADE"):
-        r = ctx.prog.own_method(cname, "run")
-        d = local_defs(r)
-        masks = [n for n, ds in d.items() if len(ds) == 1 and isinstance(ds[0], ast.IfExp) and all(isinstance(a, ast.Compare) for a in (ds[0].body, ds[0].orelse))]
-        merges = [c for c in body_walk(r.node) if isinstance(c, ast.Call) and isinstance(c.func, ast.Attribute) and c.func.attr == "merge" and isinstance(c.func.value, ast.Subscript) and c.args and isinstance(c.args[0], ast.Subscript)]
-        sel = [c for c in merges if isinstance(c.func.value.slice, ast.Name) and c.func.value.slice.id in masks]
-        ok = False
-        why = "no `T[mask].merge(P[~mask])` found"
-        if len(sel) >= 1:
-            c = sel[0]
-            mname = c.func.value.slice.id
-            T = norm(c.func.value.value)
-            other = c.args[0]
-            cmpd = d[mname][0]
-            lefts = {canon(cmpd.body.left), canon(cmpd.orelse.left)}
-            rights = {canon(cmpd.body.comparators[0]), canon(cmpd.orelse.comparators[0])}
-            if canon(other.slice) != f"~{mname}":
-                why = f"the parents kept are `{norm(other)}`, not the complement `~{mname}` of the trial mask: slots are lost or duplicated"
-            elif lefts != {f"{T}.fitnesses"} or rights != {f"{norm(other.value)}.fitnesses"}:
-                why = f"the mask compares {lefts} with {rights} but selects rows of `{T}` and `{norm(other.value)}`"
-            else:
-                ok = True
-        obs.append(ctx.ob("R04.5", r, sel[0] if sel else r.node, status=OK if ok else VIOLATION, detail=f"{cname}: slot-wise better of (trial, parent) with one mask and its complement" if ok else f"{cname}: {why}", construct=f"{cname}:greedy"))
+    # DE / SHADE slot-wise replacement (three-valued mask semantics, rules/replacement.py)
+    obs.extend(replacement.obligations(ctx, "R04.5", "keep-better" if need == "keep-offspring" else "never-worse"))
     return obs
 
 
